@@ -426,6 +426,18 @@ def c08_place(run, model, rule="C08.place"):
         run.ok(rule, ck.fi.qual, "capture dominated by the precondition gate, guarded exactly by live postconditions and snapshots, precedes the body, bound to 'OLD' in the POST mapping", ck.loc(sn))
 
 
+def _raises_itself(model, ev):
+    """The validating helper returns nothing (every return is None) and has a ``raise``: its verdict is the raise,
+    there is no returned error for the wrapper to test (the helper's own decision table is checked by C19's tables)."""
+    h = ev.get("callee")
+    if h is None or not hasattr(h, "node"):
+        return False
+    rets = [x for x in ast.walk(h.node) if isinstance(x, ast.Return)]
+    if any(x.value is not None and not (isinstance(x.value, ast.Constant) and x.value.value is None) for x in rets):
+        return False
+    return any(isinstance(x, ast.Raise) for x in ast.walk(h.node))
+
+
 def c19_reserved_call(run, model, rule="C19.reserved-call"):
     for role, ck in checkers(model).items():
         run.saw(ck.flow)
@@ -444,6 +456,9 @@ def c19_reserved_call(run, model, rule="C19.reserved-call"):
         if before:
             n = [x for x in ck.cfg.nodes if x.id == before[0]][0]
             run.violation(rule, ck.fi.qual, "`%s` can run before (or without) the validation of the reserved keyword names" % first_line(n.stmt), ck.loc(n), None, first_line(n.stmt))
+            continue
+        if _raises_itself(model, ev):
+            run.ok(rule, ck.fi.qual, "first node of the wrapper; the validator raises the TypeError itself (it returns nothing to test)", ck.loc(ev["node"]))
             continue
         ok, detail, node = ck.gate(ev, others - {ev["node"].id})
         run.check(ok, rule, ck.fi.qual, "first node of the wrapper; " + detail, detail, ck.loc(node), None, first_line(node.stmt))
@@ -467,6 +482,9 @@ def c19_result_old(run, model, rule="C19.result-old"):
         args = [t for _, t in call_arg_terms(ck.flow, ev["node"], ev["call"])]
         if ck.mapping not in args:
             run.violation(rule, ck.fi.qual, "the validation does not receive the resolved mapping of the call", ck.loc(ev["node"]), None, first_line(ev["node"].stmt))
+            continue
+        if _raises_itself(model, ev):
+            run.ok(rule, ck.fi.qual, "validated on the resolved mapping with the live postconditions before the preconditions; the validator raises the TypeError itself", ck.loc(ev["node"]))
             continue
         ok, detail, node = ck.gate(ev, later)
         run.check(ok, rule, ck.fi.qual, "validated on the resolved mapping with the live postconditions before the preconditions; " + detail, detail, ck.loc(node), None, first_line(node.stmt))
